@@ -172,6 +172,7 @@ func main() {
 		r.Finish()
 	}
 	if r.ReplayPath != "" {
+		replayContinue = os.Getenv("C02_REPLAY_CONTINUE") == "1"
 		replay()
 		return
 	}
@@ -351,11 +352,16 @@ func main() {
 			}
 		}
 	}
-	r.Set("rule", "E2: for every power vector x vote type x alphabet profile the full reachable graph of (real VoteSet, reference tally) under the profile's tokens "+
-		"(per validator: votes A, B, A' (=A with another part-set total), nil, A~ (A re-signed with another timestamp); every token may be repeated = exact duplicate; "+
-		"11 kinds of invalid vote; SetPeerMaj23 of peers p,q for A,B), to fixpoint; states de-duplicated on a digest of all mutable VoteSet fields + first-vote vector, "+
-		"supersets of the offered-signature set subsumed; successors of a violating transition are not expanded. "+
-		"E3: flags^n x 9 size/height/block-id/round variants into VerifyCommit. Counts are measured.")
+	r.Set("rule", "E2: for every power vector x vote type x alphabet profile the full reachable graph of (real VoteSet, reference tally) under the profile's tokens, to fixpoint. "+
+		"Tokens per validator: votes A, B, A' (=A with another part-set total), nil, A~ (A re-signed with another timestamp); every token stays enabled, so exact duplicates are included; "+
+		"invalid votes (index out of range, index/address mismatch, impersonation of another index, outsider address, foreign key, wrong height, round, type, chain id, flipped signature bit, 64-byte signature); "+
+		"SetPeerMaj23 of peers p,q for A,B. Profiles: full = everything; equivocation = {A,B,nil}+4 claims; id-variants = {A,A',A~,nil}+p:A; simple = {A,B,A',nil}+p:A,q:B; "+
+		"equivocation-1 = {A,B,nil}+p:A,q:B; id-variants-0 = {A,A',A~}+p:A; all with every invalid kind (see voteset_jobs_detail for which profile ran on which vector). "+
+		"States are de-duplicated on a digest of all mutable VoteSet fields + the reference first-vote vector; a successor whose offered-signature set is a superset of an explored one is subsumed "+
+		"(all oracles are antitone in it); successors of a violating transition are not expanded. The 3-4 invalid kinds that are only refused by signature verification are executed in every state "+
+		"for sets of <= 2 (thorough: <= 3) validators and otherwise in the first state (BFS order) of every distinct context (addressed validator's first vote and signed set, peer claims on the path, reported majority). "+
+		"MakeCommit -> VerifyCommit runs in every precommit state with a non-nil majority. E3: flags^n x 9 size/height/block-id/round variants into VerifyCommit "+
+		"(7 entry kinds in quick, 13 in thorough). One violation signature is kept per (oracle, canonical set of token kinds): the first in (vector, type, length, token order). All counts are measured.")
 	stop()
 	r.Finish()
 }
